@@ -207,7 +207,8 @@ ChooseHandler ==
          LET counts == IF st \in {"unary", "client"} THEN (IF code = 0 THEN {1} ELSE {0})
                        ELSE (IF Mode = "matrix" THEN 0..MaxMsgs ELSE {0, 1})
          IN \E n \in counts : \E fs \in FrameSeqs(n, base, hc # "" /\ Enveloped(Srv.form)) :
-              \E how \in (IF n = 0 /\ Mode = "errors" /\ Srv.form \in {"grpc", "grpcweb"} THEN {"normal", "trailersonly"} ELSE {"normal"}) :
+              \* (headers mode: a trailers-only response whose application trailers come with http.TrailerPrefix - style "prefixed")
+              \E how \in (IF n = 0 /\ Mode \in {"errors", "headers"} /\ Srv.form \in {"grpc", "grpcweb"} THEN {"normal", "trailersonly"} ELSE {"normal"}) :
               \E mc \in (IF code # 0 /\ Mode = "errors" THEN MsgClasses ELSE {"ascii"}) :
               \E nd \in (IF code # 0 /\ Mode = "errors" THEN {0, 2} ELSE {0}) :
                 scn' = [scn EXCEPT !.hd.frames = [i \in DOMAIN fs |-> [fs[i] EXCEPT !.z = fs[i].z \/ (hc # "" /\ ~Enveloped(Srv.form))]],
@@ -273,6 +274,9 @@ ChooseRespHeaders ==
     /\ ph = "resphdrs"
     /\ \E hs \in HeaderSets, ts \in HeaderSets, style \in {"declared", "prefixed", "declaredlc"} :
          /\ (style \in {"prefixed", "declaredlc"} => Srv.form = "grpc")
+         \* (in a trailers-only response plain keys of the header block are headers and trailers at once: only
+         \*  keys under http.TrailerPrefix are unambiguously the handler's trailers)
+         /\ (scn.hd.end.how = "trailersonly" => (ts = <<>> \/ style = "prefixed"))
          /\ (Srv.proto = "rest" \/ scn.cl.form = "rest" => ts = <<>>)   \* REST has no trailer position (DESIGN: C05 scope note)
          /\ Len(hs) <= 2 \/ Len(ts) <= 1
          /\ \/ scn' = [scn EXCEPT !.hd.hdrs = hs, !.hd.end.trl = ts, !.hd.end.style = style]
